@@ -81,16 +81,17 @@ def name? : List Nat → Option Nat
   | c :: rest => if isNameStart c then some (1 + (rest.takeWhile isNameContinue).length) else none
   | [] => none
 
+/-- 0 | NonZeroDigit Digit* -/
+def unsignedIntegerPart? : List Nat → Option Nat
+  | c :: rest =>
+    if c = '0'.toNat then some 1
+    else if isNonZeroDigit c then some (1 + (rest.takeWhile isDigit).length)
+    else none
+  | [] => none
+
 /-- IntegerPart :: NegativeSign? 0 | NegativeSign? NonZeroDigit Digit* -/
-def integerPart? (s : List Nat) : Option Nat :=
-  let unsigned : List Nat → Option Nat := fun
-    | c :: rest =>
-      if c = '0'.toNat then some 1
-      else if isNonZeroDigit c then some (1 + (rest.takeWhile isDigit).length)
-      else none
-    | [] => none
-  match s with
-  | c :: rest => if c = '-'.toNat then (unsigned rest).map (· + 1) else unsigned s
+def integerPart? : List Nat → Option Nat
+  | c :: rest => if c = '-'.toNat then (unsignedIntegerPart? rest).map (· + 1) else unsignedIntegerPart? (c :: rest)
   | [] => none
 
 /-- FractionalPart :: . Digit+ -/
